@@ -61,6 +61,9 @@ LITS = [
     ["l", "2020-01-01", None, XSD + "date"],
     ["l", "<&>", None, None],
     ["l", "cr\rhere", None, None],
+    ["l", "crlf\r\nline\r\nend", None, None],
+    ["l", "multi\nline ending in backslash-quote \\\"", None, None],
+    ["l", "back\\slash t\\tab n\\new", None, None],
     ["l", "a small graph here", None, None],
     ["l", "WHERE { ?s ?p ?o } GRAPH", None, None],
     ["l", "s", None, None],
